@@ -65,6 +65,29 @@ func ruleC19ListedFirst(c *Ctx) {
 	// first: key ranges over the order field, guarded by presence in props, followed by recording
 	okFirst := c.mentionsField(first.Call.Args[0], "orderedProperties.order", 8)
 	c.R.Check(okFirst, rule, "first-pass:ranges-over-order", c.pos(first), "the first pass emits the names of PropertyOrder in their order", "the first emission pass does not iterate PropertyOrder")
+	// ... the whole of it: what is handed over as the order is Schema.PropertyOrder itself, not a part of it
+	nOrd := 0
+	for _, fn := range c.Closure(rule, "MAR").Sorted() {
+		core.EachInstr(fn, func(i ssa.Instruction) {
+			st, ok := i.(*ssa.Store)
+			if !ok {
+				return
+			}
+			fa, ok := st.Addr.(*ssa.FieldAddr)
+			if !ok || c.fieldName(fa.X.Type(), fa.Field) != "orderedProperties.order" {
+				return
+			}
+			nOrd++
+			partial := ""
+			for _, v := range traceSourcesKeepSlices(st.Val) {
+				if sl, ok := v.(*ssa.Slice); ok && (sl.Low != nil || sl.High != nil) {
+					partial = c.pos(sl)
+				}
+			}
+			whole := partial == "" && c.mentionsField(st.Val, "Schema.PropertyOrder", 5)
+			c.R.Check(whole, rule, fmt.Sprintf("order-handed-over#%d", nOrd), c.pos(st), "the order used for emission is the whole PropertyOrder", "the order used for the emission of the properties is not the whole of Schema.PropertyOrder (a slice expression at "+partial+"): listed names beyond the cut fall back to the sorted remainder, so the output no longer honours the order the caller gave")
+		})
+	}
 	present := false
 	for _, g := range guardsOf(first) {
 		if ex, ok := g.Cond.(*ssa.Extract); ok && g.Pol && ex.Index == 1 {
